@@ -21,7 +21,9 @@ LEVEL_TEXT = ("Machine-checked proof (Coq, closed under the global context), for
               "functions by an exhaustive + random differential run of the model's own definitions every run.")
 LEVEL_NOTE = ("Trusted: Coq kernel + vm_compute; os.path.normpath (posixpath) is a library primitive modelled by a "
               "hand-written Gallina re-implementation of its documented algorithm, validated only by the "
-              "correspondence run; win32 branch of canonicalize (backslash replacement) unmodelled; symbolic links "
+              "correspondence run; the shape of canonicalize (isabs test, normpath on both branches, win32-only "
+              "backslash replacement) and its separator literal are pinned / regenerated from sftp_si.py by gen/c34.py "
+              "(fail-closed); win32 branch unmodelled; symbolic links "
               "are outside the property; strings with NUL are not generated.")
 TECHNIQUE = "Coq proof (loop invariant over normpath's component stack, split/join lemmas) + exhaustive vm_compute correspondence"
 
@@ -123,6 +125,15 @@ def gen_long(rng):
         rng.choice(TOKENS) for _ in range(rng.randrange(1, 10)))
 
 
+def mm(ctx, run_fn, case_type, cases, **kw):
+    """Model comparison that never stops the implementation-level oracle."""
+    try:
+        return ctx.model_mismatches(run_fn, case_type, cases, **kw)
+    except Exception as e:  # noqa
+        ctx.disagree("model evaluation failed for %s: %s" % (run_fn, str(e)[-400:]))
+        return []
+
+
 def cps(s):
     return [ord(c) for c in s]
 
@@ -181,11 +192,11 @@ def run(ctx):
                 continue
             ranges.append(((n, st, cnt), [pack_range(n, st, cnt, o)], strs, o))
             ctx.count(("range", n, st), kind="model-range")
-    bad = ctx.model_mismatches("run_canon_range", "(Z * Z * Z)", [(coq(c), e) for c, e, _, _ in ranges], shard=40)
+    bad = mm(ctx, "run_canon_range", "(Z * Z * Z)", [(coq(c), e) for c, e, _, _ in ranges], shard=40)
     for i in bad[:2]:
         (n, st, cnt), _, strs, o = ranges[i]
         # pinpoint the string inside the chunk
-        sub = ctx.model_mismatches("run_canon", "(list Z)", [(coq(cps(s)), cps(x)) for s, x in zip(strs, o)])
+        sub = mm(ctx, "run_canon", "(list Z)", [(coq(cps(s)), cps(x)) for s, x in zip(strs, o)])
         for j in sub[:2]:
             ctx.disagree("canonicalize differs from model", case={"path": strs[j]}, impl=o[j])
         if not sub:
@@ -199,7 +210,7 @@ def run(ctx):
         ctx.count(("long", s), nontrivial=len(s) > 0, kind="random-long")
         if o is not None:
             cases.append((s, o))
-    bad = ctx.model_mismatches("run_canon", "(list Z)", [(coq(cps(s)), cps(o)) for s, o in cases])
+    bad = mm(ctx, "run_canon", "(list Z)", [(coq(cps(s)), cps(o)) for s, o in cases])
     for i in bad[:3]:
         ctx.disagree("canonicalize differs from model", case={"path": cases[i][0]}, impl=cases[i][1])
     ctx.sample({"canonicalize": {"path": cases[0][0], "impl": cases[0][1]}})
@@ -210,7 +221,7 @@ def run(ctx):
         s = gen_long(rng) if rng.random() < 0.6 else "".join(rng.choice(ALPHA) for _ in range(rng.randrange(0, 9)))
         cases.append((s, posixpath.normpath(s)))
         ctx.count(("normpath", s), nontrivial=len(s) > 0, kind="normpath")
-    bad = ctx.model_mismatches("run_normpath", "(list Z)", [(coq(cps(s)), cps(o)) for s, o in cases])
+    bad = mm(ctx, "run_normpath", "(list Z)", [(coq(cps(s)), cps(o)) for s, o in cases])
     for i in bad[:3]:
         ctx.disagree("posixpath.normpath differs from the Gallina model", case={"path": cases[i][0]}, impl=cases[i][1])
 
